@@ -181,7 +181,20 @@ fn main() {
                     }
                 });
             }
-            match runner::replay_file(&lookup, &path) {
+            // execute on a thread with the same (default) stack size as the search workers, so that a
+            // stack overflow found by a worker reproduces here; heartbeats go to this thread's slot
+            let replay_result = {
+                let p3 = path.clone();
+                std::thread::scope(|sc| {
+                    sc.spawn(|| {
+                        crash::enter(255, 0);
+                        runner::replay_file(&lookup, &p3)
+                    })
+                    .join()
+                    .unwrap_or_else(|_| Err("the replay thread panicked outside catch_unwind".to_string()))
+                })
+            };
+            match replay_result {
                 Ok((pid, Some(v), expected)) => {
                     println!("VIOLATION property={} replay={}", pid, path);
                     println!("  class={} step={}", v.class, v.step);
